@@ -59,3 +59,15 @@ Theorem C03_logged_run : forall c o h s sent rcvd,
   snd (fst (runw c o s h sent rcvd)) = (sent ++ flat_map o_reqs (snd (run c o s h)))%list.
 Proof. exact runw_is_run. Qed.
 Print Assumptions C03_logged_run.
+
+(** non-vacuity: a subscription, a missing lookup, an accepted response, a reconnect and another missing lookup - the
+    last CDS request on the live stream (1) lists the whole interest set; nonce "n7" was only ever sent on stream 0 *)
+Theorem C03_example :
+  let c := {| sc_nds_required := false; sc_f := {| f_ns := "default"; f_dom := "cluster.local" |} |} in
+  let o := mk_oracle [] [] [] in
+  let cl n := RGood {| cl_name := n; cl_type := Some 3; cl_lb := 0; cl_eds_service := None; cl_outlier := None; cl_load := None |} in
+  let h := [OSubscribe TCl "a"; OLookup TCl "b"; OResp "7" "n7" (PCds [cl "a"]); ORecvErr false; OLookup TCl "c"] in
+  let '(s, sent, rcvd) := runw c o init_state h [] [] in
+  (s_stream s, option_map q_names (last_on TCl (s_stream s) sent), map (fun sq => (fst sq, q_nonce (snd sq))) sent, rcvd) =
+  (1%N, Some ["c"; "b"; "a"], [(0%N, ""); (0%N, ""); (0%N, "n7"); (1%N, ""); (1%N, "")], [(0%N, "n7")]).
+Proof. exact wire_example_proof. Qed.
